@@ -69,6 +69,7 @@ func (p *Prober) Stop() {
 	if p.hc != nil {
 		_ = p.hc.Stop()
 		p.stopped.Store(true)
+		verifProberStopped(p)
 	}
 }
 
